@@ -65,6 +65,7 @@ def replay(wd, name, variant, mode, behs, sb=4096, timeout=3000):
     verdicts = [None] * len(behs)
     died_at = None
     pos = 0
+    deaths = 0
     # the harness may die (panic=abort in a destructor, hang watchdog): restart after the culprit
     while pos < len(behs):
         chunk = behs[pos:]
@@ -92,6 +93,13 @@ def replay(wd, name, variant, mode, behs, sb=4096, timeout=3000):
                                 "why": ("hang (no progress for 20 s)" if hang else
                                         "process died: rc=%s %s" % (p.returncode, p.stderr[-1500:]))}
         pos = last_begin + 1
+        deaths += 1
+        if deaths >= 4:
+            # enough evidence; do not spend 20 s per further hang
+            for b in behs[pos:]:
+                if verdicts[b["id"]] is None:
+                    verdicts[b["id"]] = {"id": b["id"], "ok": True, "skipped": True}
+            break
     return verdicts
 
 
